@@ -19,6 +19,7 @@ import ArvVerif.Base.MD5
 import ArvVerif.Base.Loop
 import ArvVerif.Model.C09_Glue
 import ArvVerif.Model.C09_Spec
+import ArvVerif.Model.C09_Conc
 open ArvVerif ArvVerif.C09
 open ArvVerif.C08 (Seg FileNode Ptr Flush Store Node Err Op Res)
 
@@ -254,8 +255,114 @@ def needsSerial : Op9 → Bool
   | Op9.keep sc d => !(sc.isEmpty && d == Outcome.ok)
   | _ => false
 
+/-! ## `cg9`: the real contextGroup + throttle under a driver-imposed schedule
+
+  cg9 <cap> <n> <bg> <ev,ev,...|->
+
+Events: `s<i>` the flush loop calls `cg.Go` for task i; `c<i>` task i checks the context (and, not
+cancelled, goes on into `Acquire`); `P` / `F` the oldest Keep write in flight is answered ok / fails
+(the task then releases its slot, returns, the wrapper records the result, `done` is closed); `X` the
+parent context is cancelled; `B` a background writer gives its slot back; `W` `cg.Wait()` is called
+(no `Go` after it). After every event waiting tasks take free slots (lowest index first — which one
+gets the slot is not observable: arrivals are numbered). At the end `Wait` is called if it was not.
+Every micro-step is `Conc.step` — the model the theorems of Props/C09_Conc.lean are about.
+
+Result: `wait=<nil|E<k>|ctx|pending>;arr=<writes that reached Keep>;skip=<ids>;drop=<ids>;late=-;fails=<n>;inuse=<slots>` -/
+
+structure Cg9 where
+  s : Conc.CS
+  queue : List Nat
+  arr : Nat
+  fails : Nat
+  waitCalled : Bool
+  /-- what `Wait` returned (it returns as soon as it was called and every func handed to `Go` has finished) -/
+  res : Option String
+
+def cg9Do (cap : Nat) (s : Conc.CS) (a : Conc.Act) : Conc.CS := (Conc.step cap s a).getD s
+
+/-- waiting tasks take the free slots -/
+def cg9Settle (cap : Nat) : Nat → Cg9 → Cg9
+  | 0, st => st
+  | fuel + 1, st =>
+    if st.s.inUse < cap then
+      match st.s.pcs.findIdx? (· == Conc.PC.waiting) with
+      | some i => cg9Settle cap fuel { st with s := cg9Do cap st.s (.acquire i), queue := st.queue ++ [i], arr := st.arr + 1 }
+      | none => st
+    else st
+
+def cg9Event (cap n : Nat) (st : Cg9) (ev : String) : Option Cg9 :=
+  let num := (ev.drop 1).toString.toNat?
+  if ev == "P" || ev == "F" then
+    match st.queue with
+    | [] => some st
+    | i :: q =>
+      let b := ev == "P"
+      let s1 := cg9Do cap { st.s with script := [b] } (.putb i)
+      let s2 := cg9Do cap (cg9Do cap (cg9Do cap (cg9Do cap s1 (.release i)) (.ret i)) (.finish i)) (.closeDone i)
+      some (cg9Settle cap n { st with s := s2, queue := q, fails := st.fails + (if b then 0 else 1) })
+  else if ev == "X" then some { st with s := cg9Do cap st.s .extCancel }
+  else if ev == "B" then some (cg9Settle cap n { st with s := cg9Do cap st.s .bgRelease })
+  else if ev == "W" then some { st with waitCalled := true }
+  else if ev.startsWith "s" then
+    match num with
+    | some i =>
+      if i ≥ n || st.waitCalled || st.s.pcs[i]? != some Conc.PC.idle then none
+      else some { st with s := cg9Do cap st.s (.spawn i) }
+    | none => none
+  else if ev.startsWith "c" then
+    match num with
+    | some i =>
+      if i ≥ n then none
+      else if st.s.pcs[i]? != some Conc.PC.spawned then some st
+      else
+        let s1 := cg9Do cap st.s (.check i)
+        -- a task that found the context cancelled returns at once; the wrapper records its (context) error
+        let s2 := if s1.pcs[i]? == some (Conc.PC.returned Outcome.skip true) then cg9Do cap s1 (.finish i) else s1
+        some (cg9Settle cap n { st with s := s2 })
+    | none => none
+  else none
+
+def cg9Ids (s : Conc.CS) (p : Conc.PC → Bool) : String :=
+  joinOr "," (((List.range s.pcs.length).filter fun i => match s.pcs[i]? with | some q => p q | none => false).map toString)
+
+def cg9Wait (st : Cg9) : Option String :=
+  -- a task the flush loop never handed to `Go` is not counted by the WaitGroup
+  match Conc.wait { st.s with pcs := st.s.pcs.filter (· != Conc.PC.idle) } with
+  | none => none
+  | some .nil => some "nil"
+  | some .ctxErr => some "ctx"
+  | some (.taskErr i) =>
+    match st.s.pcs[i]? with
+    | some (.finished Outcome.fail _) =>
+      -- the error carries the arrival number of the failed write
+      (match (st.s.log.reverse.map (fun (e : Nat × Bool) => e.1)).idxOf? i with
+       | some k => some s!"E{k}"
+       | none => some "E?")
+    | _ => some "ctx"
+
+def cg9Note (st : Cg9) : Cg9 :=
+  if st.waitCalled && st.res.isNone then { st with res := cg9Wait st } else st
+
+def cg9Result (st : Cg9) : String :=
+  let st := cg9Note { st with waitCalled := true }
+  let w := st.res.getD "pending"
+  let isSkip : Conc.PC → Bool := fun q => match q with | .finished Outcome.skip _ => true | .returned Outcome.skip _ => true | _ => false
+  s!"wait={w};arr={st.arr};skip={cg9Ids st.s isSkip};drop={cg9Ids st.s (· == Conc.PC.dropped)};late=-;fails={st.fails};inuse={st.s.inUse}"
+
+def cg9Line (cap n bg : String) (evs : String) : String :=
+  match cap.toNat?, n.toNat?, bg.toNat? with
+  | some cap, some n, some bg =>
+    if cap == 0 || bg > cap || n > 64 then "bad-op" else
+    let evl := if evs == "-" then [] else evs.splitOn ","
+    let st0 : Cg9 := ⟨Conc.init n bg [] true, [], 0, 0, false, none⟩
+    match evl.foldlM (fun st ev => (cg9Event cap n st ev).map cg9Note) st0 with
+    | some st => cg9Result st
+    | none => "bad-op"
+  | _, _, _ => "bad-op"
+
 def stepLine (line : String) : String :=
   match fields line with
+  | ["cg9", cap, n, bg, evs] => cg9Line cap n bg evs
   | ["fs9", max, cw, man, blocks, ops] =>
     match max.toNat?, cw.toNat? with
     | some max, some cw =>
